@@ -373,7 +373,9 @@ var consPool = []consSpec{
 		odd: []string{"+5", "1_0", "9223372036854775808", "18446744073709551615", "0000000000000000000000042"}},
 	{c: cons{Kind: "bool"}, good: []string{"true", "false"}, bad: []string{"yes", "2", "tru", "falsee"}, odd: []string{"1", "T", "TRUE", "0"}},
 	{c: cons{Kind: "float"}, good: []string{"1", "12", "007"}, bad: []string{"abc", "1x2", "x", "1,5"}, odd: []string{"1e3", "inf", "NaN", "1e40", "0x1p2"}},
-	{c: cons{Kind: "alpha"}, good: []string{"abc", "Z", "Rick"}, bad: []string{"ab1", "1", "a_b", "a1b"}, odd: []string{"é", "ＡＢ"}},
+	{c: cons{Kind: "alpha"}, good: []string{"abc", "Z", "Rick"}, bad: []string{"ab1", "1", "a_b", "a1b",
+		// an ASCII non-letter next to non-ASCII letters: not alphabetical under any reading
+		"josé1", "zoë7", "é9", "ñ_x", "1é", "Ω2Ω"}, odd: []string{"é", "ＡＢ", "josé", "zoë"}},
 	{c: cons{Kind: "guid"}, good: []string{"cd2c1638-1638-72d5-1638-deadbeef1638", "CD2C1638-1638-72D5-1638-DEADBEEF1638"}, bad: []string{"cd2c1638", "zd2c1638-1638-72d5-1638-deadbeef1638", "abc"}, odd: []string{"cd2c1638163872d51638deadbeef1638"}, dash: true},
 	{c: cons{Kind: "minLen", Args: []string{"4"}}, good: []string{"abcd", "abcde", "12345678"}, bad: []string{"abc", "a", "12"}},
 	{c: cons{Kind: "maxLen", Args: []string{"3"}}, good: []string{"a", "abc", "12"}, bad: []string{"abcd", "12345"}},
